@@ -746,9 +746,9 @@ func ruleNotifyGated(r *Run) {
 				typeArg := r.P.Canon(ev.Fn, nc.Args[0])
 				var compType string
 				if ecx := litField(ml.Lit, "EntityComponent"); ecx != nil {
-					if cl := r.P.compositeOf(ml.Fn, ecx); cl != nil {
+					if cl, cfn := r.P.compositeOfIn(ml.Fn, ecx); cl != nil {
 						if tx := litField(cl, "EntityComponentTypeId"); tx != nil {
-							compType = r.P.Canon(ml.Fn, tx)
+							compType = r.P.Canon(cfn, tx)
 						}
 					}
 				}
